@@ -36,7 +36,7 @@ PROP = "C18"
 VERIF = os.path.dirname(HERE)
 
 # deviation switches of spec/AyDump.tla that reproduce the code as it is (every one is a finding on the pinned tree)
-ASIS = ["ElideDelDefault", "ElideDelParent", "ElideNewDefault", "ElideSafeDefault", "ElideSafeParent", "PlainTagNotPushed",
+ASIS = ["ElideDelDefault", "ElideNewDefault", "ElideSafeDefault", "ElideSafeParent", "PlainTagNotPushed",
         "SafeTagTrue", "NullDropsFlags", "ClearNoValue", "PathNoRefWraps", "ReprQuoting"]
 INVS = ["Inv_DumpOk", "Inv_Interchangeable", "Inv_SameValue", "Inv_SameMd", "Inv_DumpStable"]
 
@@ -45,8 +45,6 @@ FINDINGS = {  # switch -> (finding id, call site, what fails)
                         "an explicit delete flag equal to the node type's default is not written: `!del []` comes back as `[]` "
                         "(the remove-this-key idiom is lost), `!merge {l: [..]}` and `!del {x: !merge {..}}` come back without !merge "
                         "(the inner node then follows what it inherits instead of its own flag)"),
-    "ElideDelParent": ("F11b", "awesomeyaml/yaml.py _node_representer (current == parent)",
-                       "an explicit delete flag equal to the enclosing encoded entry is not written: explicit_delete of the child is lost"),
     "ElideNewDefault": ("F11c", "awesomeyaml/yaml.py _node_representer (current == default, allow_new)",
                         "`!new` (allow_new=True) is never written: `!notnew {x: !new {..}}` comes back with x forbidding new keys"),
     "ElideSafeDefault": ("F11d", "awesomeyaml/yaml.py _node_representer (current == default, safe)",
@@ -730,7 +728,7 @@ THOROUGH_JOBS = [
     ("unsafe-source", ["U_FocusSafe", "U_MutKinds", "U_QKinds"], False, False),
 ]
 MUTATIONS = [  # (deviation switch or design mutation, universe, source safety)
-    ("ElideDelDefault", "U_MutDel", True), ("ElideDelParent", "U_MutDel", True), ("ElideNewDefault", "U_MutNew", True),
+    ("ElideDelDefault", "U_MutDel", True), ("ElideNewDefault", "U_MutNew", True),
     ("ElideSafeDefault", "U_MutSafe", True), ("ElideSafeParent", "U_MutSafe", True), ("PlainTagNotPushed", "U_MutNew", True),
     ("SafeTagTrue", "U_MutSafe", False), ("NullDropsFlags", "U_MutKinds", True), ("ClearNoValue", "U_MutKinds", True),
     ("PathNoRefWraps", "U_MutKinds", True), ("ReprQuoting", "U_MutKinds", True),
